@@ -1,10 +1,12 @@
 package hap
 
 import (
+	"bufio"
 	"bytes"
 	"github.com/brutella/hc/crypto"
 	"github.com/brutella/hc/log"
 	"net"
+	"net/http"
 	"sync"
 	"time"
 
@@ -29,6 +31,15 @@ type Connection struct {
 
 	readBuffer io.Reader
 	received   []byte // received bytes which are not decrypted yet
+
+	// Before the connection is encrypted the bytes of one HTTP message at a time
+	// are handed to the reader (the http server).
+	plain       []byte // received bytes which are not handed over yet
+	plainHeader []byte // header of the current message, as far as handed over
+	plainBody   int64  // bytes of the current message's body which are not handed over yet
+
+	// The end of a message could not be told. The connection never becomes encrypted.
+	plainUnframed bool
 
 	notifyMutex   sync.Mutex
 	responding    bool     // a request is being handled, the response is not completely written yet
@@ -173,6 +184,13 @@ func (con *Connection) WriteNotification(b []byte) (int, error) {
 	return con.Write(b)
 }
 
+func (con *Connection) isResponding() bool {
+	con.notifyMutex.Lock()
+	defer con.notifyMutex.Unlock()
+
+	return con.responding
+}
+
 // SetResponding tells the connection that the handling of a request starts (true)
 // or that the response is written completely (false).
 func (con *Connection) SetResponding(responding bool) {
@@ -200,16 +218,99 @@ func (con *Connection) Read(b []byte) (int, error) {
 		return con.DecryptedRead(b)
 	}
 
-	n, err := con.connection.Read(b)
-	if n > 0 && con.getDecrypter() != nil {
-		// The session was switched to the encrypted one (by the pair verify handler)
-		// while this read was waiting for data. A controller sends encrypted data as
-		// soon as it received the pair verify response – the bytes are encrypted.
-		con.received = append(con.received, b[:n]...)
+	if len(con.plain) == 0 {
+		if len(b) == 0 {
+			return 0, nil
+		}
+
+		n, err := con.connection.Read(b)
+		if n == 0 {
+			return 0, err
+		}
+		con.plain = append(con.plain, b[:n]...)
+	}
+
+	if con.plainUnframed && con.getDecrypter() != nil {
+		// It is not known what the http server still holds
+		log.Debug.Println("Unframed plain text request before pair verify: close connection")
+		con.plain = nil
+		con.connection.Close()
+		return 0, io.ErrUnexpectedEOF
+	}
+
+	if con.getDecrypter() != nil {
+		// The session was switched to the encrypted one (by the pair verify handler).
+		// A controller sends encrypted data as soon as it received the pair verify
+		// response. Everything which was received behind the pair verify request – while
+		// a read was waiting for data, or in one piece with the request – is encrypted.
+		con.received = append(con.received, con.plain...)
+		con.plain = nil
 		return con.DecryptedRead(b)
 	}
 
-	return n, err
+	if len(con.plainHeader) == 0 && con.plainBody == 0 && con.isResponding() {
+		// The bytes of the next message are kept until the request which is being
+		// handled is answered – it may be the pair verify request.
+		return 0, nil
+	}
+
+	// The http server buffers what it gets and handles one request after the other.
+	// It must never hold more than the request it is working on: bytes behind the
+	// pair verify request would otherwise be served as requests of the verified
+	// controller although they were not encrypted.
+	n := con.plainMessageBytes(len(b))
+	copy(b, con.plain[:n])
+	con.plain = con.plain[n:]
+	if len(con.plain) == 0 {
+		con.plain = nil
+	}
+
+	return n, nil
+}
+
+// plainMessageBytes returns how many of the bytes in con.plain (at most max) belong
+// to the HTTP message which is currently handed over.
+func (con *Connection) plainMessageBytes(max int) int {
+	n := len(con.plain)
+	if n > max {
+		n = max
+	}
+
+	if con.plainBody > 0 {
+		if int64(n) > con.plainBody {
+			n = int(con.plainBody)
+		}
+		con.plainBody -= int64(n)
+		return n
+	}
+
+	// Look for the end of the header – it may have started in bytes handed over before
+	seen := con.plainHeader
+	if len(seen) > 3 {
+		seen = seen[len(seen)-3:]
+	}
+	if i := bytes.Index(append(append([]byte{}, seen...), con.plain[:n]...), []byte("\r\n\r\n")); i >= 0 {
+		n = i + 4 - len(seen)
+		header := append(con.plainHeader, con.plain[:n]...)
+		con.plainHeader = nil
+		if req, err := http.ReadRequest(bufio.NewReader(bytes.NewReader(header))); err == nil {
+			if req.ContentLength < 0 {
+				// A body of unknown length: the end of the message cannot be told
+				con.plainUnframed = true
+			} else {
+				con.plainBody = req.ContentLength
+			}
+		}
+		return n
+	}
+
+	con.plainHeader = append(con.plainHeader, con.plain[:n]...)
+	if len(con.plainHeader) > http.DefaultMaxHeaderBytes {
+		// Not a header the http server accepts
+		con.plainUnframed = true
+	}
+
+	return n
 }
 
 // Close closes the connection and deletes the related session from the context.
